@@ -84,7 +84,9 @@ type c13Obs struct {
 	Closes    int       `json:"closes"`    // Close calls on the session double (func) / transport (session levels)
 	Cancels   int       `json:"cancels"`   // notifications/cancelled seen by the peer
 	Left      int       `json:"left"`      // goroutines left at the end of the scenario
-	LeftAt    string    `json:"leftAt"`    // where they are
+	LeftAt    string    `json:"leftAt"`    // where they were created
+	KAAlive   int       `json:"kaAlive"`   // keep-alive goroutines still alive once the closing / the owner's Close had settled
+	Settle    int64     `json:"settle"`    // when that census was taken
 	Exit      string    `json:"exit"`      // "clean" or what synctest reported at bubble exit
 	Hand      string    `json:"hand"`      // handshake variant
 	Exp       c13Exp    `json:"exp"`
@@ -103,6 +105,26 @@ type c13Rec struct {
 	over    bool // the session has terminated or its owner closed it
 	nAfter  int
 	abort   chan struct{}
+	endedCh chan struct{} // closed when the session terminates on the SDK's initiative
+}
+
+// awaitEnd blocks until the session has terminated on its own or the owner's closing
+// instant has come, and lets everything runnable at that instant run.
+func (r *c13Rec) awaitEnd() {
+	select {
+	case <-r.endedCh:
+	case <-time.After(r.userTime() - time.Since(r.t0)):
+	}
+	synctest.Wait()
+}
+
+// census records how many keep-alive goroutines exist now (everything has settled).
+func (r *c13Rec) census() {
+	synctest.Wait()
+	_, _, ka := c13Bubble()
+	r.mu.Lock()
+	r.obs.KAAlive, r.obs.Settle = ka, r.us()
+	r.mu.Unlock()
 }
 
 func (r *c13Rec) us() int64 { return int64(time.Since(r.t0) / time.Microsecond) }
@@ -205,13 +227,17 @@ func (s *c13Pinger) Close() error {
 	r := s.r
 	r.mu.Lock()
 	r.obs.Closes++
-	if !r.over {
+	first := !r.over
+	if first {
 		r.over = true
 		r.obs.Closed = r.us()
 		r.obs.Ended = r.obs.Closed
 	}
 	r.mu.Unlock()
 	(*s.cancel)()
+	if first {
+		close(r.endedCh)
+	}
 	return nil
 }
 
@@ -223,8 +249,7 @@ func c13RunFunc(r *c13Rec, thr int) {
 	logger := slog.New(slog.DiscardHandler)
 	startKeepalive(sess, r.ivl, thr, &cancel, logger)
 	o.Start = r.us()
-	time.Sleep(r.userTime() - time.Since(r.t0))
-	synctest.Wait()
+	r.awaitEnd()
 	r.mu.Lock()
 	if !r.over {
 		r.over = true
@@ -235,6 +260,7 @@ func c13RunFunc(r *c13Rec, thr int) {
 	} else {
 		r.mu.Unlock()
 	}
+	r.census()
 }
 
 // ---------------------------------------------------------------------------
@@ -389,14 +415,17 @@ func c13RunSession(r *c13Rec, thr int, level string) error {
 		sess.Wait()
 		r.mu.Lock()
 		o.Ended = r.us()
-		if !r.over {
+		first := !r.over
+		if first {
 			r.over = true
 			o.Closed = o.Ended
 		}
 		r.mu.Unlock()
+		if first {
+			close(r.endedCh)
+		}
 	}()
-	time.Sleep(r.userTime() - time.Since(r.t0))
-	synctest.Wait()
+	r.awaitEnd()
 	r.mu.Lock()
 	over := r.over
 	if !over {
@@ -412,6 +441,7 @@ func c13RunSession(r *c13Rec, thr int, level string) error {
 		case <-time.After(20 * r.ivl):
 		}
 	}
+	r.census()
 	return nil
 }
 
@@ -422,36 +452,43 @@ var (
 	c13CreateRE = regexp.MustCompile(`created by (\S+)`)
 )
 
-// c13BubbleLeft counts the goroutines of the calling goroutine's synctest bubble other
-// than the caller and the bubble's root, and says where they were created.
-func c13BubbleLeft() (int, string) {
-	buf := make([]byte, 1<<20)
-	buf = buf[:runtime.Stack(buf, true)]
-	blocks := strings.Split(string(buf), "\n\n")
-	if len(blocks) == 0 {
-		return 0, ""
+// c13Bubble inspects the goroutines of the calling goroutine's synctest bubble other than
+// the caller and the bubble's main goroutine: how many there are, where they were created,
+// and how many of them are keep-alive loops (startKeepalive on their stack).
+func c13Bubble() (others int, where string, keepalive int) {
+	buf := make([]byte, 1<<18)
+	for {
+		n := runtime.Stack(buf, true)
+		if n < len(buf) {
+			buf = buf[:n]
+			break
+		}
+		buf = make([]byte, 2*len(buf))
 	}
+	blocks := strings.Split(string(buf), "\n\n")
 	m := c13HdrRE.FindStringSubmatch(blocks[0])
 	if m == nil {
-		return 0, ""
+		return 0, "", 0
 	}
 	tag := "synctest bubble " + m[1] + "]"
-	tag2 := "synctest bubble " + m[1] + ","
-	left, where := 0, []string{}
+	var ws []string
 	for _, b := range blocks[1:] {
 		hdr, _, _ := strings.Cut(b, "\n")
-		if !strings.Contains(hdr, tag) && !strings.Contains(hdr, tag2) {
+		if !strings.Contains(hdr, tag) {
 			continue
 		}
 		if strings.Contains(b, "synctest.Run(") || strings.Contains(b, "testingSynctestTest(") {
 			continue // the bubble's root / main goroutine
 		}
-		left++
+		others++
+		if strings.Contains(b, "mcp.startKeepalive") {
+			keepalive++
+		}
 		if c := c13CreateRE.FindStringSubmatch(b); c != nil {
-			where = append(where, c[1])
+			ws = append(ws, c[1])
 		}
 	}
-	return left, strings.Join(where, ";")
+	return others, strings.Join(ws, ";"), keepalive
 }
 
 func c13Scenario(t *testing.T, c c13Case, level string, seed uint64) (o *c13Obs) {
@@ -475,7 +512,7 @@ func c13Scenario(t *testing.T, c c13Case, level string, seed uint64) (o *c13Obs)
 		}
 	}()
 	synctest.Test(t, func(t *testing.T) {
-		r := &c13Rec{t0: time.Now(), ivl: ivl, pattern: c.Pattern, rng: rng, obs: o, abort: make(chan struct{})}
+		r := &c13Rec{t0: time.Now(), ivl: ivl, pattern: c.Pattern, rng: rng, obs: o, abort: make(chan struct{}), endedCh: make(chan struct{})}
 		g0 := runtime.NumGoroutine()
 		if level == "func" {
 			c13RunFunc(r, c.T)
@@ -492,7 +529,7 @@ func c13Scenario(t *testing.T, c c13Case, level string, seed uint64) (o *c13Obs)
 		synctest.Wait()
 		if runtime.NumGoroutine() != g0 {
 			// confirm on the goroutine dump: only goroutines of this bubble count
-			o.Left, o.LeftAt = c13BubbleLeft()
+			o.Left, o.LeftAt, _ = c13Bubble()
 		}
 	})
 	return o
